@@ -92,6 +92,7 @@ UNIT_FALLBACK = {
     "kmeriter": [("vmer::verif::lmer1::l_get_kmer_k5", "Lmer1 get_kmer Kmer5")],
     "compgraph": _SLICE_FALLBACK,
     "buildstep": [],
+    "buildnode": [],
 }
 
 def lmer(fams, tier, ks=None):
@@ -246,12 +247,16 @@ GRAPH_TRUST = [
     "canon(s) is s or rc(s) and canon(rc s) == canon(s) (axiom_canon; the real min_rc / min_rc_flip are proved to compute the lexicographic minimum by Kani family k_min_rc)",
 ]
 
+# unit buildnode: everything except the k-mer level core it re-includes (that is counted once, in unit compress)
+BUILDNODE_FNS = r"^(?!CompressFromHash::(extend_kmer|try_extend_kmer|get_kmer_data|get_kmer_id)$|Dir::|Exts::)"
+
 PROPS["C01"] = {
     "title": "Compressed graph is a lossless partition of the input k-mer set",
     "kani": lambda tier: kfam(["k_rc", "k_get", "k_extend_left", "k_extend_right", "k_min_rc"], tier, 4)
         + exts(["x_single_dir", "x_complement", "x_from_single_dirs", "x_num_ext_dir", "x_get_unique_extension"]),
     "verus": [("compress", r"^CompressFromHash::(extend_kmer|try_extend_kmer|get_kmer_data|get_kmer_id)$"),
               ("buildstep", r"^CompressFromHash::(left_step|right_step|left_terminal|right_terminal)$"),
+              ("buildnode", BUILDNODE_FNS),
               ("packedset", r"^PackedDnaStringSet::(get|len|new)$")],
     "bounded": lambda tier: [("dna_string::verif::d_packed_add_b", "PackedDnaStringSet::add x2 (5 and 3 bases) then get")],
     "design_ref": "DESIGN.md §6 C01 (as-built note in the section-6 preamble)",
